@@ -16,7 +16,7 @@ pub fn prop() -> Prop {
         id: "C12",
         run,
         max_len: 600,
-        quick: 80_000,
+        quick: 200_000,
         thorough: 2_500_000,
         rule: "choice sequence -> envelope (incl. repeated digests, wrapped, already-obscured parts) x target set {single, several, multi-position, the root, one target inside another, empty, with 1-2 absent digests}; for soundness: candidate proofs = the produced proof, proofs decoded from structurally mutated bytes of it (an elided digest replaced, an element dropped / duplicated / swapped, subject replaced), the proof of an unrelated envelope, proofs for other targets of the same envelope, the envelope itself. oracle: proof_contains_set(T) is Some iff T is a subset of the model's element digests; a produced proof has the model root digest and is confirmed for T by a verifier holding only the elided root; confirm_contains_set(T, P') for ANY candidate P' equals the model's evaluation root(P')=root AND T subset of digests(P') computed by the harness from P'; minimality: every non-elided element of the proof lies strictly above a target occurrence, every innermost target occurrence and every off-path element is an Elided case (34 serialised bytes). non-trivial: >=2 targets, or a target at depth >=2, or a mutated candidate that still decodes; distinct by FNV-64 of (encoding, targets)",
         assumptions: &["a target that contains another target is necessarily revealed in the proof (the inner one could not be reached otherwise): 'each target appears solely as an elided digest' is applied to innermost target occurrences"],
